@@ -9,6 +9,9 @@ HARNESSES.append(H("fileio.routes", "C14/fileio.c", defines={"SEL_ROUTES": 1, "P
 HARNESSES.append(H("fileio.ownership", "C14/fileio.c", defines={"SEL_OWNERSHIP": 1, "PX_CAP": 48, "PX_MAXIO": 16, "SNP_MAX": 40}, unwind=50,
                    unwindset=["psf_close_fd.0:4", "snprintf.0:41", "snprintf.1:41"], functions=_fn,
                    bounds="route in {descriptor close_desc 0/1, virtual I/O}, with/without a resource-fork descriptor that was closed earlier and re-issued by the OS", **_c))
+HARNESSES.append(H("fileio.ownership.fd0", "C14/fileio.c", defines={"SEL_OWNERSHIP": 1, "FDN": 0, "PX_CAP": 48, "PX_MAXIO": 16, "SNP_MAX": 40}, unwind=50,
+                   unwindset=["psf_close_fd.0:4", "snprintf.0:41", "snprintf.1:41"], functions=_fn,
+                   bounds="as fileio.ownership with the sound file on descriptor number 0", **_c))
 HARNESSES.append(H("fileio.rw", "C14/fileio.c", defines={"SEL_RW": 1, "PX_CAP": 48, "PX_MAXIO": 16, "SNP_MAX": 40}, unwind=50,
                    unwindset=["psf_fread.0:9", "psf_fwrite.0:9", "snprintf.0:41", "snprintf.1:41"], functions=_fn,
                    bounds="file <= 32 bytes, any position <= 40, request <= 16 bytes, EINTR up to 2 in a row", **_c))
